@@ -21,7 +21,7 @@ fn show(r: Option<Result<BlockValue, ()>>) -> String {
     }
 }
 
-fn do_new(cx: &mut Ctx, num: usize, more: bool, size: usize) {
+pub fn do_new(cx: &mut Ctx, num: usize, more: bool, size: usize) {
     let line = format!("BV new {} {} {}", num, more as u8, size);
     let r = guarded(|| BlockValue::new(num, more, size).map_err(|_| ()));
     let s = show(r.clone());
@@ -43,7 +43,7 @@ fn do_new(cx: &mut Ctx, num: usize, more: bool, size: usize) {
     }
 }
 
-fn do_dec(cx: &mut Ctx, bytes: &[u8]) {
+pub fn do_dec(cx: &mut Ctx, bytes: &[u8]) {
     let line = format!("BV dec {}", hex(bytes));
     let v = bytes.to_vec();
     let r = guarded(|| BlockValue::try_from(v).map_err(|_| ()));
